@@ -19,7 +19,7 @@ ASSUMPTIONS = ['ties at a pruning boundary (k-th vs (k+1)-th candidate within 1e
                'brute force over all alignments only for C^T <= 4096']
 N = {'quick': 3000, 'thorough': 200000}
 CLASSES = ['rand', 'peaky', 'onehot', 'zeros', 'allpruned', 'repeats', 'const', 'twolevel', 'unpruned_small', 'unnormalised', 'threshold']
-REQUIRED = ['long_lived_decoder_reused', 'alphabets_with_white_space', 'threshold_symbols', 'bestfirst_selector_decodes', 'decodes', 'overcount_checked', 'beam_compared', 'unpruned_compared', 'frames_monitored', 'frames_pruned', 'joins_observed', 'guard_checked']
+REQUIRED = ['decoders_with_insertion_bonus_and_no_lm', 'float32_large_alphabet_guard_checked', 'long_lived_decoder_reused', 'alphabets_with_white_space', 'threshold_symbols', 'bestfirst_selector_decodes', 'decodes', 'overcount_checked', 'beam_compared', 'unpruned_compared', 'frames_monitored', 'frames_pruned', 'joins_observed', 'guard_checked']
 EXHAUSTIVE_KEY = 'exhaustive_matrices'
 EXHAUSTIVE_NOTE = 'all matrices with two-level rows (weights in {1,2}), C = 3, T <= 2 (quick) / T <= 3 (thorough), every k in {1,2,3,50}, both selectors'
 KS = [1, 2, 3, 5, 8, 50]
@@ -140,7 +140,13 @@ def gen(rng, i, ctx):
     lp = make_matrix(rng, kind, T, C)
     case = {'cls': cls, 'lp': lp, 'k': k, 'default_selector': default_sel}
     if cls == 'unnormalised':
-        how = str(rng.choice(['scaled', 'raw', 'one_row', 'slightly']))
+        how = str(rng.choice(['scaled', 'raw', 'one_row', 'slightly', 'float32_large_alphabet']))
+        if how == 'float32_large_alphabet':
+            # single-precision network output over a large alphabet, one frame off by a few 1e-5
+            p = rng.random((int(rng.integers(1, 5)), int(rng.choice([300, 1000])))) ** 8 + 1e-9
+            lp32 = np.log(p / p.sum(1, keepdims=True))
+            lp32[int(rng.integers(0, lp32.shape[0]))] += float(rng.choice([6e-5, 4e-5, -5e-5]))
+            return {'cls': cls, 'lp': lp32.astype(np.float32), 'k': 2, 'default_selector': True, 'how': how}
         lp = lp.copy()
         lp[~np.isfinite(lp)] = -30.0
         if how == 'scaled':
@@ -211,10 +217,15 @@ def decode_and_check(lp, k, default_sel, mon, ctx, info, compare_beam=True):
         mon.count('alphabets_with_white_space')
     bestfirst = bool((int(lp.shape[0]) + k) % 2)
 
+    # a configured insertion bonus belongs to the LM score; without an LM the visual scores are the CTC scores whatever its value
+    bonus = [0.0, 0.5, 2.0][(int(lp.shape[0]) + 2 * k) % 3]
+    if bonus:
+        mon.count('decoders_with_insertion_bonus_and_no_lm')
+
     def make():
         if default_sel:
-            return D.CTCPrefixLogRawNumpyDecoder(letters + [D.BLANK_SYMBOL], k=k)
-        return D.CTCPrefixLogRawNumpyDecoder(letters + [D.BLANK_SYMBOL], k=k, relevant_logits_selector=nonpruning_bestfirst if bestfirst else nonpruning)
+            return D.CTCPrefixLogRawNumpyDecoder(letters + [D.BLANK_SYMBOL], k=k, insertion_bonus=bonus)
+        return D.CTCPrefixLogRawNumpyDecoder(letters + [D.BLANK_SYMBOL], k=k, relevant_logits_selector=nonpruning_bestfirst if bestfirst else nonpruning, insertion_bonus=bonus)
     dec = make()
     if default_sel:
         selector = lambda row, c: row[c] > -10
@@ -231,7 +242,7 @@ def decode_and_check(lp, k, default_sel, mon, ctx, info, compare_beam=True):
     mon.count('decodes')
     hyps = [(h.transcript, float(h.vis_sc)) for h in boh]
     # history: a decoder object that has decoded other matrices before (decode_page keeps one for the whole run) returns the same bag
-    key = (tuple(letters), k, default_sel, bestfirst)
+    key = (tuple(letters), k, default_sel, bestfirst, bonus)
     old = ctx.long_lived.get(key)
     if old is None:
         old = ctx.long_lived[key] = make()
@@ -283,7 +294,9 @@ def check(case, mon, ctx):
     if case['cls'] == 'unnormalised':
         C = lp.shape[1]
         letters = [chr(0x61 + c) for c in range(C - 1)]
-        dev = float(np.max(np.abs(np.exp(lp).sum(axis=1) - 1)))
+        dev = float(np.max(np.abs(np.exp(lp.astype(np.float64)).sum(axis=1) - 1)))
+        if case['how'] == 'float32_large_alphabet':
+            mon.count('float32_large_alphabet_guard_checked')
         if dev < 2e-5:
             mon.skip_ambiguous('guard-threshold')
             return
